@@ -204,7 +204,7 @@ def kani_cmd(h, extra=()):
     return cmd
 
 
-CHECK_RE = re.compile(r"^Check (\d+): (\S+)\s*$")
+CHECK_RE = re.compile(r"^Check (\d+): (.+?)\s*$")
 
 
 def parse_kani(out):
@@ -234,7 +234,10 @@ def parse_kani(out):
                 if "unwinding assertion" in cur["desc"]:
                     res["unwind_fail"] = True
             if ".cover." in cur["name"] and cur["status"] in ("UNSATISFIABLE", "UNREACHABLE"):
-                res["unsat_covers"].append(cur["desc"])
+                if cur["desc"].startswith("opt:"):
+                    res["opt_unsat"] = res.get("opt_unsat", 0) + 1
+                else:
+                    res["unsat_covers"].append(cur["desc"])
             cur = None
         m = re.search(r"\*\* (\d+) of (\d+) cover properties satisfied", ln)
         if m:
@@ -290,7 +293,7 @@ def native_replay(name, tape, profile="debug", focus=""):
     if not ok:
         return dict(outcome="build-failed")
     env2 = dict(ENV)
-    env2["SV_FOCUS"] = focus
+    env2["SV_FOCUS"] = focus if focus != "ALL" else ""
     rc, out, _ = run([os.path.join(path, "replay"), name, ",".join(tape) if tape else "-"], VERIF, 120, env=env2)
     last = [l for l in out.splitlines() if l.startswith("{")]
     try:
@@ -350,7 +353,7 @@ def decide_harness(h, tier, prop=""):
         rec["verdict"] = "timeout"
         return rec
     if r["status"] == "SUCCESSFUL":
-        if r["covers"][0] != r["covers"][1]:
+        if r["covers"][0] + r.get("opt_unsat", 0) != r["covers"][1]:
             rec["verdict"] = "vacuous"
             rec["unsat_covers"] = r["unsat_covers"]
         else:
@@ -364,7 +367,7 @@ def decide_harness(h, tier, prop=""):
         # attribution: assertions are labelled with the property they decide; unlabelled checks are
         # the built-in ones (panic, overflow, bounds, pointer validity) and count for every property
         lab = re.compile(r"^C\d\d\d? ")
-        rel = [x for x in r["failed"] if x[1].startswith(prop + " ") or not lab.match(x[1])]
+        rel = [x for x in r["failed"] if x[1].startswith(prop + " ") or not lab.match(x[1]) or prop == "ALL"]
         other = sorted({x[1][:3] for x in r["failed"] if lab.match(x[1]) and not x[1].startswith(prop + " ")})
         rec["other_props_failing"] = other
         if not rel:
@@ -375,7 +378,7 @@ def decide_harness(h, tier, prop=""):
         rec["failed"] = [dict(check=a, desc=b, loc=c) for a, b, c in rel][:20]
         # counterexample for this property: rebuild with only its assertions active
         env2 = dict(ENV)
-        env2["SV_FOCUS"] = prop
+        env2["SV_FOCUS"] = prop if prop != "ALL" else ""
         log2 = os.path.join(LOGS, name + ".playback.log")
         rc2, out2, wall2 = run(kani_cmd(h, ["-Z", "concrete-playback", "--concrete-playback=print"]),
                                KANI_DIR, h["timeout"], h["mem"], log2, env=env2)
@@ -444,7 +447,7 @@ def main():
     os.makedirs(REPLAYS, exist_ok=True)
     t0 = time.time()
     reg = load_registry()
-    sel = [h for h in reg.values() if prop in h["props"] and (tier == "thorough" or h["tier"] == "quick")]
+    sel = [h for h in reg.values() if (prop in h["props"] or prop == "ALL") and (tier == "thorough" or h["tier"] == "quick")]
     if only:
         sel = [h for h in sel if h["name"] == only]
     sel.sort(key=lambda h: -h["timeout"])
